@@ -63,29 +63,43 @@ def proof_step(prop_id, cfg):
         if not os.path.exists(p):
             bad.append("%s: listed in _CoqProject but missing" % f)
             continue
+        stack = []
         for ln, s in enumerate(strip_comments(open(p).read()).splitlines(), 1):
-            if FORBIDDEN.search(s) or re.match(r"\s*(Variable|Hypothesis)\b", s) and "Section" not in open(p).read():
+            m = re.match(r"\s*(Section|Module(?:\s+Type)?)\s+(\w+)", s)
+            if m and ":=" not in s:
+                stack.append(m.group(1).split()[0])
+            elif re.match(r"\s*End\s+\w+\s*\.", s) and stack:
+                stack.pop()
+            in_section = "Section" in stack
+            if FORBIDDEN.search(s) or (re.match(r"\s*(Variables?|Hypothes[ie]s|Context)\b", s) and not in_section):
                 bad.append("%s:%d: %s" % (f, ln, s.strip()))
     if bad:
         res["log"] = "forbidden constructs:\n" + "\n".join(bad)
         return res
-    ok, log = model.make_coq()
-    pv = os.path.join(COQ, cfg["coq"])
-    src = strip_comments(open(pv).read()) if os.path.exists(pv) else ""
+    pfiles = [cfg["coq"]] + list(cfg.get("coq_extra", []))
+    src = ""
+    for pf in pfiles:
+        pv = os.path.join(COQ, pf)
+        src += (strip_comments(open(pv).read()) if os.path.exists(pv) else "") + "\n"
     thms = re.findall(r"^\s*(?:Theorem|Corollary)\s+(\w+)", src, re.M)
     res["theorems"] = thms
     res["obligations"] = len(thms)
+    # build exactly what this property's theorems depend on (a full .vo build of those files, never -vos)
+    ok, log = model.make_coq(target=" ".join(pf[:-2] + ".vo" for pf in pfiles))
     if not ok:
         res["log"] = log[-3000:]
         m = re.search(r'File "\./([^"]+)", line (\d+)', log)
         res["broken_at"] = m.group(0) if m else "make failed"
         return res
     # re-run the property file alone to capture Print Assumptions
-    rc, out = model.sh("timeout 900 coqc -R . HGV %s" % cfg["coq"], cwd=COQ)
-    if rc != 0:
-        res["log"] = out[-3000:]
-        res["broken_at"] = cfg["coq"]
-        return res
+    out = ""
+    for pf in pfiles:
+        rc, o1 = model.sh("timeout 900 coqc -R . HGV %s" % pf, cwd=COQ)
+        out += o1
+        if rc != 0:
+            res["log"] = o1[-3000:]
+            res["broken_at"] = pf
+            return res
     blocks = re.split(r"\n(?=Closed under the global context|Axioms:)", "\n" + out)
     ass = [b.strip() for b in blocks if b.strip().startswith(("Closed under", "Axioms:"))]
     npa = len(re.findall(r"Print Assumptions\s+(\w+)", src))
@@ -111,13 +125,13 @@ def run_pair(fam, drv, cases, jobs=8):
         # acceptor shape: the model reads the case followed by a line [-1] and the implementation's output
         impl = runner.run_batch([drv] + getattr(fam, "DRIVER_ARGS", []), cases, 10.0, fam.NAME + "-impl")
         piped = [c + [[-1]] + (o if isinstance(o, list) else [[-2]]) for c, o in zip(cases, impl)]
-        mod = runner.run_batch([model.RUNNER, fam.MODEL_FAMILY], piped, 10.0, fam.NAME + "-model")
+        mod = runner.run_batch([model.runner_path(fam.MODEL_FAMILY), fam.MODEL_FAMILY], piped, 10.0, fam.NAME + "-model")
         return impl, mod
     chunks = [cases[i::jobs] for i in range(jobs)] if len(cases) >= 64 else [cases]
     chunks = [c for c in chunks if c]
     with cf.ThreadPoolExecutor(max_workers=2 * len(chunks)) as ex:
         fi = [ex.submit(runner.run_batch, [drv] + getattr(fam, "DRIVER_ARGS", []), c, 10.0, fam.NAME + "-impl") for c in chunks]
-        fm = [ex.submit(runner.run_batch, [model.RUNNER, fam.MODEL_FAMILY], c, 10.0, fam.NAME + "-model") for c in chunks]
+        fm = [ex.submit(runner.run_batch, [model.runner_path(fam.MODEL_FAMILY), fam.MODEL_FAMILY], c, 10.0, fam.NAME + "-model") for c in chunks]
         ri = [f.result() for f in fi]
         rm = [f.result() for f in fm]
     if len(chunks) == 1:
@@ -167,7 +181,7 @@ def load_known():
 
 
 def write_replay(prop_id, name, payload):
-    d = os.path.join(VERIF, "replays")
+    d = os.environ.get("HGV_REPLAY_DIR") or os.path.join(VERIF, "replays")
     os.makedirs(d, exist_ok=True)
     p = os.path.join(d, "%s-%s.json" % (prop_id, name))
     json.dump(payload, open(p, "w"), indent=1)
@@ -188,8 +202,12 @@ def check(prop_id, tier, seed):
     proof_ok = pr["ok"]
 
     # 2. build the working tree + drivers, and the model runner
-    ok_model, mlog = model.build_runner()
     fams = [family_module(f) for f in cfg["families"]]
+    ok_model, mlog = True, ""
+    for fam in fams:
+        okf, lg = model.build_runner_for(fam.MODEL_FAMILY)
+        if not okf:
+            ok_model, mlog = False, lg
     drivers = {}
     build_info = {}
     build_fail = None
@@ -333,6 +351,8 @@ def check(prop_id, tier, seed):
         "assumptions": cfg.get("assumptions", []),
         "wall_s": wall, "violations": len(violations),
     }
-    os.makedirs(os.path.join(VERIF, "evidence"), exist_ok=True)
-    json.dump(ev, open(os.path.join(VERIF, "evidence", prop_id + ".json"), "w"), indent=1)
+    build.drop_scratch_bins()
+    evdir = os.environ.get("HGV_EVIDENCE_DIR") or os.path.join(VERIF, "evidence")
+    os.makedirs(evdir, exist_ok=True)
+    json.dump(ev, open(os.path.join(evdir, prop_id + ".json"), "w"), indent=1)
     return 1 if violations else 0
